@@ -37,6 +37,34 @@ UsesOk(e, sch, IsUsed(_), IsUsedList(_)) ==
 RegexToksOk(ts) == \A i \in 1..Len(ts) : ts[i].k = "regex" => RegexTokOk(ts[i])
 StarOf(e) == IF "star" \in DOMAIN e THEN e.star ELSE -1
 
+(* C03, definition context: a function definition creates a per-call context object when its    *)
+(* arguments start being checked; every check_param call appends to it through one of the        *)
+(* mutable accessors (downcast_mut for even argument positions, as_any_mut for odd ones), and     *)
+(* return_type / compile must see that same object - with all n entries - through every           *)
+(* accessor.  Observations are [phase, accessor, entries seen or -1 when the accessor failed].    *)
+RECURSIVE CallArgCounts(_, _), CallArgCountsIdx(_, _), CallArgCountsArg(_, _)
+CallArgCountsArg(a, fname) == IF a.k = "aidx" THEN CallArgCountsIdx(a.e, fname)
+                              ELSE IF a.k = "alit" THEN <<>> ELSE CallArgCounts(a.e, fname)
+CallArgCountsIdx(ie, fname) ==
+  IF ie.id.k = "field" THEN <<>>
+  ELSE (IF ie.id.name = fname THEN <<Len(ie.id.args)>> ELSE <<>>)
+       \o FlatSeq(Strict([i \in 1..Len(ie.id.args) |-> CallArgCountsArg(ie.id.args[i], fname)]))
+CallArgCounts(n, fname) ==
+  IF n.k = "comb" THEN FlatSeq(Strict([i \in 1..Len(n.items) |-> CallArgCounts(n.items[i], fname)]))
+  ELSE IF n.k = "cmp" THEN CallArgCountsIdx(n.lhs, fname)
+  ELSE IF n.k = "quant" THEN CallArgCountsArg(n.arg, fname)
+  ELSE CallArgCounts(n.e, fname)
+
+CtxObsOk(obs, n) ==
+  LET checks == SelectSeq(obs, LAMBDA o : o[1] = "check")
+      later == SelectSeq(obs, LAMBDA o : o[1] # "check")
+  IN /\ Len(checks) = n
+     /\ \A i \in 1..Len(checks) :
+          /\ checks[i][2] = (IF (i - 1) % 2 = 0 THEN "downcast_mut" ELSE "as_any_mut")
+          /\ checks[i][3] = i                       \* the object holds exactly the arguments checked so far
+     /\ Len(later) >= 3                             \* return_type (two accessors) and compile were reached
+     /\ \A i \in 1..Len(later) : later[i][3] = n   \* the same object, complete, through every accessor
+
 CheckFilter(e) ==
   LET sch == Schs[e.sch]
       r == ParseFilterS(e.ts, sch, e.max, StarOf(e))
@@ -46,6 +74,9 @@ CheckFilter(e) ==
      /\ r.ok =>
           /\ Chk(e.ast = [c |-> "deep"] \/ AstJson(r.node) = e.ast, <<"ast json, expected", AstJson(r.node)>>)
           /\ Chk(NestLogical(r.node) <= e.max, "nesting above the limit accepted")
+          /\ ("ctxobs" \in DOMAIN e /\ CallArgCounts(r.node, "ctxfn") # <<>> /\ Len(CallArgCounts(r.node, "ctxfn")) = 1) =>
+                Chk(CtxObsOk(e.ctxobs, CallArgCounts(r.node, "ctxfn")[1]),
+                    <<"definition context of ctxfn with", CallArgCounts(r.node, "ctxfn")[1], "arguments; observed", e.ctxobs>>)
           /\ UsesOk(e, sch, LAMBDA f : UsesLogical(r.node, f), LAMBDA f : UsesListLogical(r.node, f))
           /\ \A i \in 1..Len(e.runs) :
                LET run == e.runs[i] IN
